@@ -21,9 +21,9 @@ ROOT = pathlib.Path(__file__).resolve().parent.parent
 REPO = pathlib.Path(os.environ.get("VERIF_REPO", "/repo"))
 
 
-def load():
+def load(neutral=False):
     out = []
-    for f in sorted((ROOT / "tools" / "mutants").glob("*.json")):
+    for f in sorted((ROOT / "tools" / ("neutral" if neutral else "mutants")).glob("*.json")):
         out.extend(json.loads(f.read_text()))
     return out
 
@@ -68,13 +68,14 @@ def main():
     ap.add_argument("--only")
     ap.add_argument("--props")
     ap.add_argument("--tier", default="quick")
+    ap.add_argument("--neutral", action="store_true", help="behaviour-preserving rewrites (tools/neutral): every check must stay quiet")
     a = ap.parse_args()
-    muts = load()
+    muts = load(a.neutral)
     if a.only:
         ids = set(a.only.split(","))
         muts = [m for m in muts if m["id"] in ids]
     report = {}
-    repfile = ROOT / "sensitivity" / "report.json"
+    repfile = ROOT / "sensitivity" / ("neutral_report.json" if a.neutral else "report.json")
     if repfile.exists():
         report = json.loads(repfile.read_text())
     for m in muts:
@@ -88,6 +89,10 @@ def main():
         caught = [p for p, r in res.items() if r["exit"] == 1]
         report[m["id"]] = {"file": m["file"], "desc": m.get("desc", ""), "results": res, "caught_by": caught}
         status = "CAUGHT" if caught else "SURVIVED"
+        if a.neutral:
+            bad = [p for p, r in res.items() if r["exit"] != 0]
+            report[m["id"]]["quiet"] = not bad
+            status = "ALARM" if bad else "QUIET"
         print(f"{status:9s} {m['id']:45s} " + " ".join(f"{p}:{r['exit']}({r['violations']},{r['wall_s']}s)" for p, r in res.items()), flush=True)
     repfile.parent.mkdir(exist_ok=True)
     repfile.write_text(json.dumps(report, indent=1, sort_keys=True) + "\n")
